@@ -334,13 +334,13 @@ fn run_multifile(cfg: &Cfg, index: u64, stats: &mut Stats) {
 }
 
 /// A shard died or ran out of CPU on a case: decide by running the real CLI on the same input.
-fn on_case_death(cfg: &Cfg, generator: &str, index: u64, death: &str) -> Option<Violation> {
-    let g = GENS.iter().find(|g| **g == generator)?;
+fn on_case_death(cfg: &Cfg, generator: &str, index: u64, death: &str) -> Death {
+    let Some(g) = GENS.iter().find(|g| **g == generator) else { return Death::HarnessError };
     let sources = match make_input(g, cfg, index) {
         | Input::Overlay(s) => s,
         | Input::InPlace { original, text } => {
             // copy into a scratch dir is not possible without its import context; report with the in-process death only
-            return Some(Violation {
+            return Death::Violation(Violation {
                 signature: format!("front-end-death {}", death),
                 tags: input_tags(&text),
                 generator: generator.into(),
@@ -352,9 +352,9 @@ fn on_case_death(cfg: &Cfg, generator: &str, index: u64, death: &str) -> Option<
     let (ok, status) = confirm_out_of_process(&sources);
     if ok {
         // the CLI copes: the death was the harness's (e.g. its own stack) — no verdict from this case
-        return None;
+        return Death::Inconclusive(format!("in-process analysis died ({death}) but zydeco check copes"));
     }
-    Some(Violation {
+    Death::Violation(Violation {
         signature: format!("front-end-death {}", status),
         tags: input_tags(sources.root_text()),
         generator: generator.into(),
